@@ -61,15 +61,44 @@ var verElems = []uint16{70, 71, 72, 73, 74, 75, 76, 77, 78, 79, 90, 95, 104, 210
 // consecutive versions (2k, 2k+1) use the same elements and differ only in
 // the field lengths; other pairs differ in the elements as well.
 func versionTemplate(id uint16, v int) model.Template {
-	a := 1 + (v*5)%11
 	e := v / 2
+	if id == optionsShapeID {
+		// an options template: five one-octet scope fields (a specifier slice
+		// built by appending one at a time ends up with spare capacity) and
+		// two option fields that carry the version
+		const scopeN = 5
+		total := recLen - scopeN
+		a := 1 + (v*5)%(total-1)
+		t := model.Template{ID: id, Options: true}
+		for i := 0; i < scopeN; i++ {
+			t.Scope = append(t.Scope, model.FieldSpec{ID: verElems[len(verElems)-1-i], Len: 1})
+		}
+		t.Fields = []model.FieldSpec{{ID: verElems[e%len(verElems)], Len: uint16(a)}, {ID: verElems[(e/len(verElems)+e+7)%len(verElems)], Len: uint16(total - a)}}
+		return t
+	}
+	a := 1 + (v*5)%11
 	return model.Template{ID: id, Fields: []model.FieldSpec{{ID: verElems[e%len(verElems)], Len: uint16(a)}, {ID: verElems[(e/len(verElems)+e+7)%len(verElems)], Len: uint16(recLen - a)}}}
 }
 
+// optionsShapeID: keys with this template id use options templates.
+const optionsShapeID = 300
+
+// versionOfFields identifies the version from the complete specifier list
+// (scope fields first).
 func versionOfFields(ids []uint16, lens []uint16, id uint16) int {
 	for v := 1; v <= 40; v++ {
 		t := versionTemplate(id, v)
-		if len(ids) == 2 && len(lens) == 2 && ids[0] == t.Fields[0].ID && ids[1] == t.Fields[1].ID && lens[0] == t.Fields[0].Len && lens[1] == t.Fields[1].Len {
+		all := t.AllFields()
+		if len(ids) != len(all) || len(lens) != len(all) {
+			continue
+		}
+		same := true
+		for i := range all {
+			if ids[i] != all[i].ID || lens[i] != all[i].Len {
+				same = false
+			}
+		}
+		if same {
 			return v
 		}
 	}
@@ -146,7 +175,11 @@ type cacheAPI struct {
 
 func (c *cacheAPI) announce(k CacheKeyPlan, v int, seq uint32) {
 	t := versionTemplate(k.ID, v)
-	body := flowMsgBytes(c.proto, []model.Set{{Kind: model.SetTemplate, Tpls: []model.Template{t}}}, nil, seq)
+	kind := model.SetTemplate
+	if t.Options {
+		kind = model.SetOptions
+	}
+	body := flowMsgBytes(c.proto, []model.Set{{Kind: kind, Tpls: []model.Template{t}}}, nil, seq)
 	ip := net.IP(append([]byte(nil), k.Addr...))
 	if c.proto == pIPFIX {
 		ipfix.NewDecoder(ip, body).Decode(c.ic)
@@ -225,12 +258,16 @@ func (c *cacheAPI) peer(k CacheKeyPlan) (int, string) {
 		return 0, err.Error()
 	}
 	var ids, lens []uint16
+	for _, f := range tr.ScopeFieldSpecifiers {
+		ids = append(ids, f.ElementID)
+		lens = append(lens, f.Length)
+	}
 	for _, f := range tr.FieldSpecifiers {
 		ids = append(ids, f.ElementID)
 		lens = append(lens, f.Length)
 	}
-	if tr.TemplateID != k.ID || int(tr.FieldCount) != len(ids) || len(tr.ScopeFieldSpecifiers) != 0 {
-		return -1, fmt.Sprintf("peer lookup returned template id %d with %d/%d fields", tr.TemplateID, tr.FieldCount, len(ids))
+	if tr.TemplateID != k.ID || int(tr.FieldCount) != len(ids) || int(tr.ScopeFieldCount) != len(tr.ScopeFieldSpecifiers) {
+		return -1, fmt.Sprintf("peer lookup returned template id %d with %d/%d fields (%d/%d scope)", tr.TemplateID, tr.FieldCount, len(ids), tr.ScopeFieldCount, len(tr.ScopeFieldSpecifiers))
 	}
 	v := versionOfFields(ids, lens, k.ID)
 	if v < 0 {
@@ -285,12 +322,16 @@ func dumpVersions(b []byte, keys []CacheKeyPlan) ([]int, string) {
 			continue
 		}
 		var ids, lens []uint16
+		for _, f := range e.Template.ScopeFieldSpecifiers {
+			ids = append(ids, f.ElementID)
+			lens = append(lens, f.Length)
+		}
 		for _, f := range e.Template.FieldSpecifiers {
 			ids = append(ids, f.ElementID)
 			lens = append(lens, f.Length)
 		}
 		v := versionOfFields(ids, lens, e.Template.TemplateID)
-		if v < 0 || len(e.Template.ScopeFieldSpecifiers) != 0 {
+		if v < 0 {
 			out[i] = -1
 		} else if e.Template.TemplateID != k.ID {
 			out[i] = -2 // a complete template, but of another key (hash collision)
